@@ -38,8 +38,9 @@ def model_users(table):
     return [M.UserSpec(login if tag != "anon" else None, pw, home=home) for (tag, login, pw, home) in TABLES[table]]
 
 
-def spec_users(table):
-    return [{"login": (login if tag != "anon" else None), "password": pw, "home_path": home} for (tag, login, pw, home) in TABLES[table]]
+def spec_users(table, occupied=()):
+    # accounts named in `occupied` have maximum_connections=1 and another session holds that slot
+    return [{"login": (login if tag != "anon" else None), "password": pw, "home_path": home, "maximum_connections": 1 if login in occupied else None} for (tag, login, pw, home) in TABLES[table]]
 
 
 def core_cases(seed):
@@ -274,7 +275,7 @@ def run_case(case):
     net = scenario.random_net(rng, allow_small_pipe=False)
     if case.get("net"):
         net.update(case["net"])
-    sc = {"seed": case["seed"], "server": {"block_size": 16, "wait_future_timeout": 5.0, "users": spec_users(case["table"]), "user_manager": case.get("manager")}, "net": net, "fs": {"delay": None}}
+    sc = {"seed": case["seed"], "server": {"block_size": 16, "wait_future_timeout": 5.0, "users": spec_users(case["table"], case.get("occupied") or ()), "user_manager": case.get("manager")}, "net": net, "fs": {"delay": None}}
     viol = []
     info = {"unauth_cmds": 0}
     world = scenario.setup_world(sc)
@@ -305,8 +306,26 @@ def run_case(case):
 
         async def main():
             await server.start("127.0.0.1", 2121)
+            holders = []
+            pwof = {login: pw for (tag, login, pw, home) in TABLES[case["table"]]}
+            for name in case.get("occupied") or ():
+                # another session is logged in as this account and keeps its only slot
+                h = RawPeer(world, "holder-" + name, reply_timeout=100.0)
+                holders.append(h)
+                await h.connect()
+                await h.cmd("USER " + name)
+                if pwof.get(name):
+                    await h.cmd("PASS " + pwof[name])
+            ops = []
+            for o in case["ops"]:
+                o = tuple(o)
+                if o[0] == "USER" and o[1] in (case.get("occupied") or ()):
+                    o = (o[0], o[1], {"limit_reached": True})
+                ops.append(o)
             await peer.connect()
-            steps = await conform.drive(peer, sess, [tuple(o) for o in case["ops"]], world=world, on_step=on_step)
+            steps = await conform.drive(peer, sess, ops, world=world, on_step=on_step)
+            for h in holders:
+                h.close()
             info["steps"] = steps
             peer.close()
             await asyncio.sleep(1)
@@ -390,6 +409,19 @@ def minimise(case, violation):
     return cur, violation
 
 
+def occupied_core(seed):
+    """a USER refused because the account's only slot is taken, then PASS with that account's
+    password (and everything else): the refused USER must not leave the account selected"""
+    out = []
+    for table, name, pw in (("mixed", "u2", "pw2"), ("twopw", "u3", "pw3"), ("noanon", "u2", "pw2")):
+        for pre in ([], [["USER", "u1"]], [["USER", name]]):
+            for (v, a) in [("PASS", pw), ("PWD", ""), ("MKD", "newdir"), ("EPSV", ""), ("MLST", "f")]:
+                ops = [list(x) for x in pre] + [["USER", name], ["PASS", pw], [v, a], ["PWD", ""]]
+                for mgr in MANAGERS:
+                    out.append({"seed": seed * 10000 + 5000 + len(out), "table": table, "ops": ops, "occupied": [name], "manager": mgr, "core": f"occupied/{table}/{v}"})
+    return out
+
+
 def selftest_cases(n):
     out = []
     for i in range(n):
@@ -423,7 +455,7 @@ def main(argv=None):
     deadline = time.time() + (a.budget or (60 if quick else 1200))
     n = 3000 if quick else 400000
     with common.Pool() as pool:
-        core = core_cases(a.seed)
+        core = core_cases(a.seed) + occupied_core(a.seed)
         for vi, verb in enumerate(("RETR", "LIST", "MLSD", "LISTD", "STOR")):
             for pv in ("EPSV", "PASV"):
                 for tp in (False, True):
@@ -440,6 +472,9 @@ def main(argv=None):
                     c = {"kind": "burst", "seed": s, "table": t, "pre": pre, "burst": burst, "manager": rnd.choice(["slow", "digest", "slow", "memory"])}
                 else:
                     c = {"seed": s, "table": t, "ops": gen_history(rnd, t), "manager": rnd.choice(MANAGERS)}
+                    known = [login for (tag, login, pw, home) in TABLES[t] if tag != "anon"]
+                    if known and rnd.random() < 0.3:
+                        c["occupied"] = [rnd.choice(known)]
                 if i in (0, 3):
                     c["want_sample"] = True
                 yield c
